@@ -1,6 +1,6 @@
-"""Shared analysis of the two order sizers (used by C10, C11, C08)."""
+"""Shared analysis of the two order sizers (used by C08, C09, C10, C11)."""
 from .. import terms as T
-from ..lib import summarise, V, A, normal, cond_str
+from ..lib import summarise, V, A, normal, cond_str, as_len_test
 from ..symex import default_policy
 from ..terms import fmt, ZERO, num
 
@@ -11,15 +11,40 @@ def call_is(t, name):
     return t is not None and t[0] == 'call' and t[1] == ('ext', name)
 
 
+def loop_asset_weight(lp):
+    """(asset term, weight term, weights container) of a sizing loop: `for a, w in sorted(W.items())` or `for a in sorted(W): w = W[a]`."""
+    it = lp.iter
+    src = it[2][0] if call_is(it, 'SORTED') and len(it[2]) == 1 else it
+    el = ('elem', lp.iter, lp.id)
+    if src[0] == 'call' and src[1] == ('meth', 'items') and len(src[2]) == 1:
+        return ('sub', el, num(0)), ('sub', el, num(1)), src[2][0]
+    if src[0] == 'call' and src[1] == ('meth', 'keys') and len(src[2]) == 1:
+        return el, ('sub', src[2][0], el), src[2][0]
+    if src[0] == 'call' and src[1] in (('ext', 'LIST'),) and len(src[2]) == 1:
+        return el, ('sub', src[2][0], el), src[2][0]
+    return el, ('sub', src, el), src
+
+
+def is_empty_weights_path(p):
+    """the path taken when the weight dict is empty"""
+    for c, v, _ in p.conds:
+        t = as_len_test(c, v)
+        if t is not None and t[0] == V('weights') and t[1] == 'empty':
+            return True
+        if c == V('weights') and not v:
+            return True
+    return False
+
+
 def sizing_paths(ctx, cname):
-    """-> list of dicts for every non-empty normal path of <cname>.__call__ : path, loop, bodies[(body path, quantity term, fee event, price event)]"""
+    """-> all paths, and for every normal path that sizes: dict(path, loop, bodies[dict(path, quantity, fee, price, writes)])"""
     qn = cname + '.__call__'
     ps = summarise(ctx, qn, policy=default_policy)
     out = []
     for p in ps:
-        if p.outcome == 'raise' and not any(e.kind == 'loop' for e in p.events):
-            continue
         loops = [e for e in p.events if e.kind == 'loop' and not e.d.get('partial')]
+        # the sizing loop is the one that consults the fee model
+        loops = [l for l in loops if any(e.kind == 'call' and any(c.endswith('.calc_total_cost') for c in e.callee) for b in l.paths for e in b.flat_events())]
         if p.outcome != 'return' or len(loops) != 1:
             continue
         lp = loops[0]
@@ -27,7 +52,7 @@ def sizing_paths(ctx, cname):
         for b in lp.paths:
             fee = [e for e in b.flat_events() if e.kind == 'call' and any(c.endswith('.calc_total_cost') for c in e.callee)]
             price = [e for e in b.flat_events() if e.kind == 'call' and any(c.startswith('BacktestDataHandler.get_asset_latest_') for c in e.callee)]
-            ws = [w for w in b.flat_events() if w.kind == 'write' and w.d.get('local') and w.loc[0] == 'sub' and w.loc[1] == V('target_portfolio')]
+            ws = [w for w in b.flat_events() if w.kind == 'write' and w.d.get('local') and w.loc[0] == 'sub' and w.loc[1][0] == 'var']
             q = None
             if len(ws) == 1 and ws[0].value[0] == 'dict':
                 q = dict(ws[0].value[1]).get(('str', 'quantity'))
